@@ -144,13 +144,18 @@ func runStandaloneAt(bin, cwd, dir string, args []string, env []string, patterns
 }
 
 func runVet(bin, dir string, args []string, env []string, patterns ...string) binRun {
+	return runVetAt(bin, dir, dir, args, env, patterns...)
+}
+
+// runVetAt starts go vet in cwd; file names are reported relative to dir
+func runVetAt(bin, cwd, dir string, args []string, env []string, patterns ...string) binRun {
 	if len(patterns) == 0 {
 		patterns = []string{"./..."}
 	}
 	ctx, cancel := context.WithTimeout(context.Background(), binTimeout)
 	defer cancel()
 	cmd := exec.CommandContext(ctx, "go", append(append([]string{"vet", "-json", "-vettool=" + bin}, args...), patterns...)...)
-	cmd.Dir = dir
+	cmd.Dir = cwd
 	cmd.Env = cleanEnv(env...)
 	var so, se bytes.Buffer
 	cmd.Stdout, cmd.Stderr = &so, &se
@@ -459,7 +464,84 @@ func binDrivers(o corrOpts, sum *res.Summary, r *rng.R, bin string) {
 		sort.Strings(l)
 		cmp("inprocess-sanitycheck ./...", l, nil)
 	}
-	sum.Rule = "generated import DAGs (declaring packages importing each other, user packages importing them; annotation values across the grammar) analysed by: standalone ./..., go vet -vettool (facts via vetx files), leaf-only and random subsets/orders of packages under both drivers, in-process with the checker's gob sanity check; plus, under an exclude-paths entry naming a declaring package's directory: go vet, and standalone runs started from the program's directory and from inside the excluded directory; the normalised (file:line:col:code) sets must all equal the standalone ./... set restricted to the named packages; non-trivial = run with diagnostics"
+	// module boundary: a declaring package that imports nothing is turned into a module of its own (nested go.mod,
+	// require + replace in the main module): same import path, same files, another module. Its importers must get the
+	// diagnostics they got when everything was one module, under both drivers.
+	{
+		moved := 0
+		for i := 0; i < n && moved < 2; i++ {
+			prog := fmt.Sprintf("k%d", i)
+			d0 := filepath.Join(dir, prog, "d0")
+			ents, err := os.ReadDir(d0)
+			if err != nil {
+				continue
+			}
+			selfContained := true
+			for _, e := range ents {
+				b, _ := os.ReadFile(filepath.Join(d0, e.Name()))
+				if strings.Contains(string(b), "\"exp/") || strings.HasSuffix(e.Name(), "_test.go") {
+					selfContained = false
+				}
+			}
+			if !selfContained {
+				continue
+			}
+			moved++
+			mainMod, _ := os.ReadFile(filepath.Join(dir, "go.mod"))
+			modPath := "exp/" + prog + "/d0"
+			os.WriteFile(filepath.Join(d0, "go.mod"), []byte("module "+modPath+"\n\ngo 1.25\n"), 0o644)
+			os.WriteFile(filepath.Join(dir, "go.mod"), []byte(string(mainMod)+"\nrequire "+modPath+" v0.0.0\n\nreplace "+modPath+" => ./"+prog+"/d0\n"), 0o644)
+			inProg := func(k string) bool { return strings.HasPrefix(k, prog+"/") && !strings.HasPrefix(k, prog+"/d0/") }
+			rs := runStandalone(bin, dir, nil, nil, "./"+prog+"/...")
+			if c := crashed(rs); c != "" {
+				sum.Notes = append(sum.Notes, "module-boundary run failed: "+c[:min(len(c), 200)])
+			} else {
+				cmp("standalone-other-module "+modPath, runKeys(rs, notTest), inProg)
+				rv := runVet(bin, dir, []string{"-config.exclude-checks=ZZCACHEKEY3"}, nil, "./"+prog+"/...")
+				cmp("govet-other-module "+modPath, runKeys(rv, notTest), inProg)
+			}
+			os.Remove(filepath.Join(d0, "go.mod"))
+			os.WriteFile(filepath.Join(dir, "go.mod"), mainMod, 0o644)
+		}
+		sum.AddN("declaring-packages-moved-to-another-module", moved)
+		// … and the other way round: a user package becomes a module of its own that requires the main module, so the
+		// annotated packages it imports lie outside the module being analysed
+		movedUsers := 0
+		for i := 0; i < n && movedUsers < 3; i++ {
+			prog := fmt.Sprintf("k%d", i)
+			ents, _ := filepath.Glob(filepath.Join(dir, prog, "u*", "*"))
+			for _, u := range ents {
+				if st, err := os.Stat(u); err != nil || !st.IsDir() {
+					continue
+				}
+				relDir, _ := filepath.Rel(dir, u)
+				rel := filepath.ToSlash(relDir) + "/"
+				any := false
+				for _, k := range baseKeys {
+					if strings.HasPrefix(k, rel) && !strings.Contains(strings.TrimPrefix(k, rel), "/") {
+						any = true
+					}
+				}
+				if !any {
+					continue
+				}
+				movedUsers++
+				os.WriteFile(filepath.Join(u, "go.mod"), []byte("module exp/"+strings.TrimSuffix(rel, "/")+"\n\ngo 1.25\n\nrequire exp v0.0.0\n\nreplace exp => ../../..\n"), 0o644)
+				here := func(k string) bool { return strings.HasPrefix(k, rel) && !strings.Contains(strings.TrimPrefix(k, rel), "/") }
+				rs := runStandaloneAt(bin, u, dir, nil, nil, ".")
+				if c := crashed(rs); c != "" {
+					sum.Notes = append(sum.Notes, "user-module run failed: "+c[:min(len(c), 200)])
+				} else {
+					cmp("standalone-user-in-own-module "+rel, runKeys(rs, notTest), here)
+					cmp("govet-user-in-own-module "+rel, runKeys(runVetAt(bin, u, dir, []string{"-config.exclude-checks=ZZCACHEKEY4"}, nil, "."), notTest), here)
+				}
+				os.Remove(filepath.Join(u, "go.mod"))
+				break
+			}
+		}
+		sum.AddN("user-packages-moved-to-another-module", movedUsers)
+	}
+	sum.Rule = "generated import DAGs (declaring packages importing each other, user packages importing them; annotation values across the grammar) analysed by: standalone ./..., go vet -vettool (facts via vetx files), leaf-only and random subsets/orders of packages under both drivers, in-process with the checker's gob sanity check; plus, under an exclude-paths entry naming a declaring package's directory: go vet, and standalone runs started from the program's directory and from inside the excluded directory; a declaring package, and a user package, moved into a module of its own (nested go.mod + replace), both drivers; the normalised (file:line:col:code) sets must all equal the standalone ./... set restricted to the named packages; non-trivial = run with diagnostics"
 }
 
 // ---------------------------------------------------------------- C08
@@ -581,13 +663,40 @@ func binExclude(o corrOpts, sum *res.Summary, r *rng.R, bin string) {
 	} else {
 		sets = append(sets, structured...)
 	}
+	// every name of the table entirely in lower case, and in a mixed case of its own ("=": taken verbatim)
+	for _, c := range append(append([]string{"ALL"}, cats...), all...) {
+		sets = append(sets, []string{"=" + strings.ToLower(c)})
+		mixed := []byte(strings.ToLower(c))
+		k := r.Intn(len(mixed))
+		mixed[k] = strings.ToUpper(string(mixed[k]))[0]
+		if o.tier == "thorough" || r.Chance(1, 3) {
+			sets = append(sets, []string{"=" + string(mixed)})
+		}
+	}
 	for i, S := range sets {
 		// spelling: random case and spacing
 		var parts []string
-		for _, t := range S {
-			switch r.Intn(5) {
+		for k, t := range S {
+			if strings.HasPrefix(t, "=") {
+				t = t[1:]
+				S[k] = t
+				parts = append(parts, t)
+				continue
+			}
+			switch r.Intn(4) {
 			case 0:
 				t = strings.ToLower(t)
+			case 1:
+				// letter by letter
+				bs := []byte(t)
+				for j := range bs {
+					if r.Bool() {
+						bs[j] = strings.ToLower(string(bs[j]))[0]
+					}
+				}
+				t = string(bs)
+			}
+			switch r.Intn(5) {
 			case 1:
 				t = " " + t + " "
 			case 2:
@@ -724,9 +833,15 @@ func binWellformed(o corrOpts, sum *res.Summary, r *rng.R, bin string) {
 		}
 	}
 	sum.DistinctNontrivial = len(sum.Distribution)
+	var inTestFiles []binDiag
 	// under scan-tests + custom exclude-paths: still no diagnostic inside an excluded file
 	{
 		alt := runStandalone(bin, dir, []string{"-config.scan-tests=true", "-config.exclude-paths=zz_,in_test"}, nil)
+		for _, d := range alt.diags {
+			if strings.HasSuffix(d.File, "_test.go") {
+				inTestFiles = append(inTestFiles, d)
+			}
+		}
 		if c := crashed(alt); c != "" {
 			sum.Disagree(res.Disagreement{Kind: "panic", Input: "standalone scan-tests + exclude-paths", Impl: c, Clause: "C10"})
 		}
@@ -860,7 +975,71 @@ func binWellformed(o corrOpts, sum *res.Summary, r *rng.R, bin string) {
 				Clause: "C17: appending `// @ignore CODE` with the displayed code to its line removes it and nothing else (GGV.Props.C17.inline_ignore_removes)", Details: why})
 		}
 	}
-	sum.Rule = "every diagnostic of the all-codes module and generated programs (-json): header `error: [CODE] `, code in the table, analyzer of that category, file inside the module and not excluded, help link = the category's page per the regenerated table; text-mode exit status vs printed diagnostics; for a sample of diagnostics (all 16 codes first) the source line gets `// @ignore CODE` appended and the package is re-analysed: exactly that diagnostic disappears (up to once-per-file re-reporting); non-trivial = distinct codes/checks seen"
+	// the same with the line inside a declaration-independent enclosing scope of a sibling code: the file starts with
+	// `// @ignore <another code of the category>`; and for diagnostics inside test files under scan-tests
+	sibling := func(code string) string {
+		for _, c := range codes.CodesByCategory[known[code]] {
+			if c.ID != code {
+				return c.ID
+			}
+		}
+		return ""
+	}
+	probe := func(d binDiag, flags []string, fileIgnore string, what string) {
+		path := filepath.Join(dir, d.File)
+		orig, err := os.ReadFile(path)
+		if err != nil {
+			return
+		}
+		lines := strings.Split(string(orig), "\n")
+		if d.Line < 1 || d.Line > len(lines) || strings.Contains(lines[d.Line-1], "//") || d.Col == 0 || strings.Contains(string(orig), "\n//line ") {
+			return
+		}
+		lines[d.Line-1] += " // @ignore " + d.Code
+		text := strings.Join(lines, "\n")
+		shift := 0
+		if fileIgnore != "" {
+			text = "// @ignore " + fileIgnore + "\n" + text
+			shift = 1
+		}
+		os.WriteFile(path, []byte(text), 0o644)
+		got := runStandalone(bin, dir, flags, nil, "./"+filepath.Dir(d.File))
+		os.WriteFile(path, orig, 0o644)
+		sum.Evaluations++
+		sum.Count(what + "-" + d.Code)
+		if c := crashed(got); c != "" {
+			sum.Disagree(res.Disagreement{Kind: "panic", Input: what + " at " + d.key(), Impl: c, Clause: "C10"})
+			return
+		}
+		want := fmt.Sprintf("%s:%d:%d:%s", d.File, d.Line+shift, d.Col, d.Code)
+		for _, x := range runKeys(got, nil) {
+			if x == want {
+				sum.Disagree(res.Disagreement{Kind: "impl-vs-spec", Input: fmt.Sprintf("wellformed seed=%d %s %s flags=%v file-level=%q line=%q", o.seed, what, d.key(), flags, fileIgnore, strings.TrimSpace(lines[d.Line-1])), Impl: "still reported: " + x, Model: "not reported",
+					Clause: "C17: appending `// @ignore CODE` with the displayed code to its line removes it (GGV.Props.C17.inline_ignore_removes)"})
+			}
+		}
+	}
+	sib := 0
+	for _, d := range cands {
+		if sib >= k/2 && strings.HasPrefix(d.File, "k") {
+			break
+		}
+		if d.Code == "" || d.File == "" || sibling(d.Code) == "" {
+			continue
+		}
+		if strings.HasPrefix(d.File, "k") {
+			sib++
+		}
+		probe(d, nil, sibling(d.Code), "inline-ignore-under-sibling-scope")
+	}
+	for i := len(inTestFiles) - 1; i > 0; i-- {
+		j := r.Intn(i + 1)
+		inTestFiles[i], inTestFiles[j] = inTestFiles[j], inTestFiles[i]
+	}
+	for _, d := range inTestFiles[:min(len(inTestFiles), k/2)] {
+		probe(d, []string{"-config.scan-tests=true", "-config.exclude-paths=zz_,in_test"}, "", "inline-ignore-in-test-file")
+	}
+	sum.Rule = "every diagnostic of the all-codes module and generated programs (-json): header `error: [CODE] `, code in the table, analyzer of that category, file inside the module and not excluded, help link = the category's page per the regenerated table; text-mode exit status vs printed diagnostics; for a sample of diagnostics (all 16 codes first) the source line gets `// @ignore CODE` appended and the package is re-analysed: exactly that diagnostic disappears (up to once-per-file re-reporting); the same below a file-level @ignore of a sibling code, and for diagnostics in test files under scan-tests; non-trivial = distinct codes/checks seen"
 }
 
 func uniqSorted(l []string) []string {
